@@ -24,10 +24,14 @@ def run(tier, replay):
                           "--worlds-out", rw, "--cases-out", rc])
         trace2 = S.serve(rw, rc, sc, obs="full", stats=True, tag="r")
         tv2 = S.judge("C02", "Trace_Static_c02", trace2, verdict, signature)
+        # wire surface: the same TLC cases through the real binary on loopback sockets (accept loop, pool, real transport)
+        trace3 = S.serve(worlds, cases, sc, obs="full", stats=False, tag="w", wire=True)
+        tv3 = S.judge("C02", "Trace_Static_c02", trace3, verdict, signature)
         n1, n2 = S.count_events(trace), S.count_events(trace2)
+        n3 = S.count_events(trace3)
         ev["coverage"] = {
             "states": mc.distinct + gen.distinct, "transitions": mc.generated + gen.generated,
-            "traces_validated_against_impl": n1["Serve"] + n2["Serve"],
+            "traces_validated_against_impl": n1["Serve"] + n2["Serve"] + n3["Serve"], "wire_requests": n3["Serve"],
             "spec_cases_replayed": ncases, "random_world_requests": n2["Serve"],
             "fs_model_checks_against_os": n1["Stat"] + n2["Stat"], "worlds": n1["Mount"] + n2["Mount"],
             "samples": S.sample_events(trace, 3),
